@@ -255,6 +255,12 @@ def generate(seed, prop):
                         cnt, off = 1, 0
                     if v.size == 0:
                         continue
+                    if "invalid" in enabled and r.random() < 0.08:
+                        # astronomically large requests: count * sizeof(dtype) does not fit in 64 bits
+                        if r.random() < 0.5:
+                            cnt = r.choice(HUGE)
+                        else:
+                            off = r.choice(HUGE)
                     emit(["slice", t, si, off, cnt])
                 elif x < 0.75:
                     off = small(ln)
@@ -375,8 +381,8 @@ def _gen_copy(r, m, emit, fam, live_mem_slots, any_slot, fillv):
         if bad:
             if va.storage is m.H[h]:
                 return          # a request that happens to be valid must not be an overlapping memcpy
-            cnt = r.choice([-2, -5, la + 1, la + 2, 1])
-            off = r.choice([-1, -2, la, la + 1, 0]) if cnt == 1 else r.choice([0, 0, 1])
+            cnt = r.choice([-2, -5, la + 1, la + 2, 1, r.choice(HUGE)])
+            off = r.choice([-1, -2, la, la + 1, 0, r.choice(HUGE)]) if cnt == 1 else r.choice([0, 0, 1])
             emit([r.choice(["copyHM", "copyMH"]), a, h, cnt, off, 0])
             return
         cnt = r.choice([-1, -1, r.randint(0, la)])
@@ -400,9 +406,9 @@ def _gen_copy(r, m, emit, fam, live_mem_slots, any_slot, fillv):
     if bad:
         if dst.storage is src.storage:
             return              # a request that happens to be valid must not be an overlapping memcpy
-        cnt = r.choice([-2, lc + 1, (max(dst.size, src.size) // csz) + 1, 1, 1])
-        doff = r.choice([0, -1, dst.size // dsz, dst.size // dsz + 1])
-        soff = r.choice([0, 0, -1, src.size // ssz + 1])
+        cnt = r.choice([-2, lc + 1, (max(dst.size, src.size) // csz) + 1, 1, 1, r.choice(HUGE)])
+        doff = r.choice([0, -1, dst.size // dsz, dst.size // dsz + 1, r.choice(HUGE)]) if cnt < 2 ** 40 else 0
+        soff = r.choice([0, 0, -1, src.size // ssz + 1]) if cnt < 2 ** 40 else 0
         emit([name, a, b, cnt, doff, soff])
         return
     cnt = r.choice([-1, r.randint(0, lc), r.randint(0, lc)])
@@ -460,6 +466,10 @@ def _gen_pool(r, m, emit, live_slot, any_slot, dev_slot, fillv):
 
 
 # ------------------------------------------------------------------ checking one history
+
+# counts and offsets whose product with a dtype size of 2, 4, 8 or 16 wraps around 64 bits (to 0, to a small or to a negative number)
+HUGE = [2 ** 62, 2 ** 63 - 1, 2 ** 61, 2 ** 60 + 1, 2 ** 63 // 3, 2 ** 62 + 2, 2 ** 61 + 3]
+
 
 def prop_of_op(name):
     if name in POOL_OPS:
